@@ -74,3 +74,7 @@ def classify(case, obs):
 
 def nontrivial(case, obs):
     return not G.model_dontcare(case)
+
+
+def focus(changed):
+    G.set_focus(changed)
